@@ -635,6 +635,45 @@ def _builder_cases(tier):
                 yield ["rotate3d", [list(n), th, form]]
 
 
+def check_root_row(case, R):
+    """The same transforms on trees whose ROOT IS NOT THE FIRST ROW (a file that lists the soma last and is read without sorting, a
+    tree re-rooted without sorting): 'the root' is the node without a parent, wherever it is stored."""
+    p0, ri, bank_k, op, where = list(case[0]), case[1], case[2], case[3], case[4]
+    n = len(p0)
+    root = ROOTS[ri]
+    xyz0, r0 = _geometry(n, root, bank_k)
+    # move the root row to `where` (last / middle): row order = the other nodes with the root inserted at that position
+    rest = list(range(1, n))
+    k = len(rest) if where == "last" else len(rest) // 2
+    order = rest[:k] + [0] + rest[k:]
+    new_of = {old: new for new, old in enumerate(order)}
+    p = [-1 if p0[old] == -1 else new_of[p0[old]] for old in order]
+    xyz32 = [xyz0[old] for old in order]
+    rr = [r0[old] for old in order]
+    types = [1 if old == 0 else 2 + (old % 3) for old in order]
+    x = build.make_tree(p, xyz=xyz32, r=rr, types=types)
+    xyz = [tuple(float(v) for v in q) for q in xyz32]
+    rrow = order.index(0)
+    R.state(p, ri, op, where)
+    name, call = _make(op)
+    snap = build.snapshot(x)
+    ok, y = R.impl(name, call, x)
+    if not ok:
+        return
+    got = [tuple(float(v) for v in row) for row in np.asarray(y.xyz(), dtype=np.float64).tolist()]
+    fmap, amp, t1 = _ref_map(op, root)
+    c = _centre_point(op, root)
+    lab = _centre_label(op, root)
+    for i in range(n):
+        want = fmap(xyz[i])
+        err = max(abs(got[i][k_] - want[k_]) for k_ in range(3))
+        R.check(err <= _tol(xyz[i], c, amp, t1), "root-row:position",
+                lambda: f"{name} op={op} on a tree whose root is row {rrow} of {n} (root at {root}): node {i} at {xyz[i]} -> {got[i]}, stated map gives "
+                        f"{tuple(round(v, 6) for v in want)}", f"root-row:position:{lab}")
+    R.check(_cols(y) == _cols(x) and build.snapshot(x) == snap, "root-row:column-changed", lambda: f"{name} op={op}", "root-row:columns")
+    R.outcome(op[0], where)
+
+
 def spaces(tier, seed):
     quick = tier == "quick"
     roots = [0, 1, 2]
@@ -649,6 +688,18 @@ def spaces(tier, seed):
             for ri in roots:
                 for op in _ops(tier):
                     yield [list(p), ri, bank_k, op]
+
+    def gen_root_row():
+        rr_trees = [p for n in range(2, 5) for p in S.sorted_trees(n)]
+        for p in rr_trees:
+            for ri in (1, 2):
+                for where in ("last", "middle"):
+                    for op in _ops(tier):
+                        if op[0] in ("scale", "rotate") and op[-1] != "call" and quick:
+                            continue
+                        if op[0] == "scale" and quick and sorted(set(op[1])) not in ([0.5, 2.0, 3.0], [2.0], [-1.0, 0.5, 2.0]) and op[1] != [2.0, 2.0, 2.0] and op[1] != [0.5, 2.0, 3.0]:
+                            continue
+                        yield [list(p), ri, bank_k, op, where]
 
     def gen_hist():
         k = len(HIST_INPUTS)
@@ -691,6 +742,8 @@ def spaces(tier, seed):
         "ops_per_tree": sum(1 for _ in _ops(tier)),
     }
     return [
+        Space.of("root-not-first-row", gen_root_row, check_root_row,
+                 bounds={"ST_nodes": [2, 4], "root_row": ["last", "middle"], "roots": [list(ROOTS[1]), list(ROOTS[2])], "ops": "the transform grid (quick: unit / mixed scale factors only)"}),
         Space.of("transforms", gen, check_transform, bounds=bounds, auto_retain=True),
         Space.of("call-histories", gen_hist, check_history, auto_retain=True,
                  bounds={"transform_objects": len(HIST_OPS), "inputs": HIST_INPUTS, "sequence_length": "2" if quick else "2 and 3",
